@@ -520,8 +520,38 @@ def check_entries(ctx, P):
     ctx.check(ok and okl, "entries", "process", "init columns 0,1 of every lane; passes x 4 slices x lanes; final block = xor of the last column; tag = H'(final)", "process() no longer follows the RFC 9106 schedule: loops %s" % lps, where=pr.where(), key="entries:process")
 
 
+def check_address_refresh(ctx, P):
+    """data-independent addressing: a fresh address block every 128 indices (i % 128 == 0), one before the loop when
+    the segment starts at index 2, and entry i % 128 is the one consumed"""
+    fn = P.fn("kdf::argon2::fill_segment")
+    calls = fn.calls_to(r"argon2::next_addresses$")
+    inloop = [c for c in calls if c.bb in fn.loop_blocks()]
+    pre = [c for c in calls if c.bb not in fn.loop_blocks()]
+    okl = len(inloop) == 1
+    idxleaf = None
+    if okl:
+        fs = pred.facts_at(fn, inloop[0].bb)
+        mods = [f for f in fs if f[0] == "eq" and f[2] == 0 and len(f[1]) == 1 and f[1][0][0].startswith("mod(") and f[1][0][0].endswith(",128)")]
+        okl = len(mods) == 1 and ("bool", "v:data_independent_addressing", True) in fs
+        if okl:
+            idxleaf = mods[0][1][0][0][4:-5]
+            okl = "Range<A>>::next(v:iter)" in idxleaf
+    ctx.check(okl, "address", "refresh:in-loop", "next_addresses runs exactly under data-independent addressing and i % 128 == 0 (i the segment index)", "fill_segment refreshes the address block under a different condition than `i %% 128 == 0` on the segment index: %s" % ([pred.show(f) for f in pred.facts_at(fn, inloop[0].bb) if f[0] in ("eq", "ne", "le")][:4] if inloop else "no in-loop call"), where=fn.where(), key="address:refresh-loop")
+    okp = len(pre) == 1
+    if okp:
+        fs = pred.facts_at(fn, pre[0].bb)
+        okp = ("bool", "v:data_independent_addressing", True) in fs and pred.A("eq", 0, **{"v:position.slice": 1}) in fs and pred.A("eq", 0, **{"v:position.pass": 1}) in fs
+        # and the same guard sets starting_index = 2
+    ctx.check(okp, "address", "refresh:first-segment", "when the segment starts at index 2 (pass 0, slice 0) the first address block is generated before the loop", "fill_segment does not generate the first address block for the first segment (indices 2..127 would read an all-zero address block)", where=fn.where(), key="address:refresh-first")
+    # the entry consumed is address_block[i % 128]
+    reads = [pred.canon(fn.expr(c.args[1]), fn) for c in fn.calls_to(r"argon2::Block as core::ops::Index<usize>>::index$") if "address_block" in pred.canon(fn.expr(c.args[0]), fn)]
+    okr = len(reads) == 1 and idxleaf is not None and reads[0].replace(" ", "") in ("mod(%s,128)" % idxleaf, "(mod(%s,128)asusize)" % idxleaf) or (len(reads) == 1 and idxleaf is not None and ("mod(%s,128)" % idxleaf) in reads[0])
+    ctx.check(okr, "address", "refresh:entry", "pseudo_rand = address_block[i % 128]", "fill_segment does not consume address_block[i %% 128]: %s" % reads, where=fn.where(), key="address:refresh-entry")
+
+
 def run(ctx):
     P = ctx.prog("K0")
+    ctx.guard("address", "refresh", lambda: check_address_refresh(ctx, P))
     ctx.guard("h0", "H0", lambda: check_h0(ctx, P))
     ctx.guard("hprime", "hprime", lambda: check_hprime(ctx, P))
     ctx.guard("address", "fill_segment", lambda: check_fill_segment(ctx, P))
